@@ -11,6 +11,7 @@ f32 patterns.  Which view a property type uses is decided by XmlFormat.tla, not 
 usage: xmltok.py < events.ndjson > events_with_doc.ndjson   (replaces "text" by "doc")
 """
 import base64
+import hashlib
 import json
 import re
 import struct
@@ -152,11 +153,28 @@ def parse(text):
     return root
 
 
+LONG = 8192
+
+
+def shrink(x):
+    """Every byte string longer than LONG (a list of ints 0..255: values in the forests, raw / base64 views of the
+    document's text) becomes SHA-256 + length + a marker, on all sides alike: equal before iff equal after (short
+    of a SHA-256 collision), and TLC compares 44 numbers instead of millions."""
+    if isinstance(x, list):
+        if len(x) > LONG and all(isinstance(b, int) and 0 <= b <= 255 for b in x):
+            return list(hashlib.sha256(bytes(x)).digest()) + list(len(x).to_bytes(8, 'big')) + [1, 2, 3, 4]
+        return [shrink(y) for y in x]
+    if isinstance(x, dict):
+        return {k: shrink(v) for k, v in x.items()}
+    return x
+
+
 def main():
     for line in sys.stdin:
         if not line.strip():
             continue
         ev = json.loads(line)
+        big = len(line) > 200000
         if 'text' in ev:
             try:
                 ev['doc'] = parse(ev.pop('text'))
@@ -165,6 +183,8 @@ def main():
                 ev['wellformed'] = 0
                 ev['xml_error'] = str(e)
                 ev.pop('text', None)
+        if big:
+            ev = shrink(ev)
         sys.stdout.write(json.dumps(ev) + '\n')
 
 
